@@ -37,9 +37,12 @@ def run(tier):
     refq = bzref.batch([d for _, d, _ in r0])
     valid = [d for (_, d, _), v in zip(r0, refq) if v['ok'] and len(d) < 400][:: (12 if quick else 3)]
     some_bad = [d for (_, d, _), v in zip(r0, refq) if not v['ok'] and 30 < len(d) < 200][:: (240 if quick else 60)]
+    # groups of fifty 20-bit codes at every bit alignment (see C09): the fast path of retrieve() at its limit
+    from lib import bzgen
+    aligned20 = [bzgen.build([([decdiff.all20_block(110, k)], 1)])[0] for k in range(0, 32, (2 if quick else 1))]
     for variant in ('asan', 'msan'):
         for leg in ('c14', 'c20', 'c01', 'c04', 'c09'):
-            futs[(variant, leg)] = pool.submit(fn_leg, variant, leg, valid + some_bad)
+            futs[(variant, leg)] = pool.submit(fn_leg, variant, leg, valid + some_bad + aligned20)
     # whole program, decompression candidates
     r = decdiff.run_all(tier, variant='asan')
     n = 0
